@@ -321,8 +321,11 @@ INBOX_NAMES = ['inbox', 'Inbox', 'Inbox/x', 'INBOX/sub', 'INBOX/sub/deep',
                # not INBOX: str.upper() maps the dotless i to I
                '\u0131nbox', '\u0131NBOX', '\u0131nbox/x', 'INBO\u03a7',
                '\uff29NBOX']
-EDGE_WS_NAMES = ['a ', ' a', 'a \t', 'sp ace ', 'a/b ', 'a /b', 'a ',
-                 'w\x1f', 'a\x85']
+EDGE_WS_NAMES = ['a ', ' a', 'a \t', 'sp ace ', 'a/b ', 'a /b', 'a\xa0',
+                 'w\x1f', 'a\x85',
+                 # what str.splitlines() takes for a line boundary
+                 'x\x1cy', 'p\u2028q', 'l\x0bm', 'r\x0cs', 'u\u2029',
+                 'left\x1eright', 'n\x85/m']
 DEGENERATE_NAMES = ['', '/', '//']
 # ordinary names for the model (a server may refuse to create them); a
 # trailing delimiter is dropped by CREATE (RFC 3501 6.3.3)
